@@ -332,9 +332,20 @@ def run(db: DB, rep: Report) -> None:
                 isinstance(n.test.func, ast.Name) and n.test.func.id == "isinstance" and \
                 len(n.test.args) == 2 and isinstance(n.test.args[1], ast.Name):
             arms[n.test.args[1].id] = n
+    # table-driven dispatch: a dict literal {NodeClass: translator, ...} in the translator class
+    table: Dict[str, ast.AST] = {}
+    for g_ in tn.cls.methods.values():
+        for n in walk_no_nested(g_.node):
+            if isinstance(n, ast.Dict) and len(n.keys) >= 3 and \
+                    all(isinstance(k, ast.Name) and k.id.endswith("Node") for k in n.keys):
+                for k in n.keys:
+                    table[k.id] = k
     need = {c for c in inst_cls if c not in pruned_cls}
     for cname in sorted(need | set(arms)):
-        if cname in need and cname not in arms:
+        if cname in need and cname not in arms and cname in table:
+            rep.instance("K2", db.loc(table[cname]), "dispatch-table entry %s <-> constructed at %s" %
+                         (cname, db.loc(inst_cls[cname])))
+        elif cname in need and cname not in arms:
             rep.check("K2", False, db.loc(inst_cls[cname]), "FlowGraph", "arm-missing:" + cname,
                       "node class %s has no translator arm" % cname,
                       "the flow graph can contain %s nodes (constructed at %s) but "
@@ -360,7 +371,7 @@ def run(db: DB, rep: Report) -> None:
             return isinstance(n, ast.Call) and isinstance(n.func, ast.Attribute) and \
                 n.func.attr == "add" and isinstance(n.func.value, ast.Name) and \
                 n.func.value.id == acc and len(n.args) == 1 and \
-                isinstance(n.args[0], ast.Call)
+                isinstance(n.args[0], (ast.Call, ast.Name))
         return paths.path_counts(stmts, paths.make_pred(is_add))
 
     def check_arm(label: str, stmts: List[ast.stmt], node: ast.AST, must_return: bool = False) -> None:
@@ -422,10 +433,10 @@ def run(db: DB, rep: Report) -> None:
     while isinstance(cur, ast.If):
         last_else = cur.orelse
         cur = cur.orelse[0] if len(cur.orelse) == 1 and isinstance(cur.orelse[0], ast.If) else None
-    rep.check("K2", bool(last_else) and any(isinstance(s, ast.Raise) for s in last_else),
+    rep.check("K2", bool(last_else) and any(isinstance(x, ast.Raise) for s in last_else for x in ast.walk(s)),
               db.loc(tn.node), tn.short, "dispatch-else", "node dispatch ends in raise",
               "the node dispatch of __trans_nodes does not end in a raise: an unknown node kind "
-              "would be skipped silently")
+              "would be skipped silently", decided=not table)
 
     # ---- K3 loop bracket chain and its recursive consumption ----------------------
     rep.rule("K3", "loop nest chain: loops in order, update innermost, ends reversed; recursive consumption", 4)
@@ -905,18 +916,36 @@ def _check_chain(db: DB, rep: Report, fg: ClassInfo, tn: FuncInfo) -> None:
     ok = False
     if len(rec) == 1 and isinstance(rec[0].parent, ast.Assign) and isinstance(rec[0].parent.targets[0], ast.Tuple):
         jname = rec[0].parent.targets[0].elts[0].id
-        arg = rec[0].args[0]
+        arg = paths.resolve_flow(rec[0].args[0], rec[0], tn.node, depth=3)
         sl_ok = isinstance(arg, ast.Subscript) and isinstance(arg.slice, ast.Slice) and arg.slice.upper is None \
             and isinstance(arg.slice.lower, ast.BinOp) and isinstance(arg.slice.lower.op, ast.Add) and \
             _const(arg.slice.lower.right) == 1
         idx_name = norm(arg.slice.lower.left) if sl_ok else None
+        def is_j(e: ast.AST, depth: int = 0) -> bool:
+            """e is the consumed count (possibly through plain copies / a returned tuple's first item)"""
+            if norm(e) == jname:
+                return True
+            if depth < 4 and isinstance(e, ast.Name):
+                for st_, v_ in paths.defs_of(tn.node, e.id):
+                    if v_ is not None and is_j(v_, depth + 1):
+                        return True
+                    tv_ = st_.value if isinstance(st_, ast.Assign) else None
+                    if isinstance(tv_, ast.Name):
+                        cands = [v2 for _, v2 in paths.defs_of(tn.node, tv_.id) if isinstance(v2, ast.Tuple)]
+                        tv_ = cands[0] if len(cands) == 1 else None
+                    if isinstance(st_, ast.Assign) and isinstance(st_.targets[0], ast.Tuple) and \
+                            isinstance(tv_, ast.Tuple) and len(tv_.elts) == len(st_.targets[0].elts):
+                        for tg_, vv_ in zip(st_.targets[0].elts, tv_.elts):
+                            if isinstance(tg_, ast.Name) and tg_.id == e.id and is_j(vv_, depth + 1):
+                                return True
+            return False
         adv = any(isinstance(s_, ast.AugAssign) and isinstance(s_.op, ast.Add) and norm(s_.target) == idx_name
-                  and norm(s_.value) == jname for s_ in arm.body)
+                  and is_j(s_.value) for s_ in arm.body)
         ok = sl_ok and adv
     rep.check("K3", ok, db.loc(arm), tn.short, "loop-recursion",
               "the loop arm translates nodes[i + 1:] recursively and advances by what was consumed",
               "the loop arm of __trans_nodes does not recurse on the remaining nodes and skip the consumed "
-              "ones; loop bodies and their EndLoop brackets would no longer match")
+              "ones; loop bodies and their EndLoop brackets would no longer match", decided=len(rec) == 1)
     # EndLoop returns the number of nodes consumed including itself
     earm = None
     for n in walk_no_nested(tn.node):
